@@ -281,6 +281,21 @@ func (dm *DMap) readRepair(winner *version, versions []*version) {
 			}
 			f.Unlock()
 		} else {
+			// The repair travels as PutEntry, which writes to the backup fragment of its receiver.
+			// A previous primary owner is not repaired that way: it hands its fragment over to
+			// this node anyway (the merge keeps the newest version), and a copy in its backup
+			// fragment would be out of the reach of every later Delete.
+			isBackupOwner := false
+			for _, backupOwner := range dm.s.backup.PartitionOwnersByHKey(partitions.HKey(dm.name, winner.entry.Key())) {
+				if backupOwner.CompareByID(tmp) {
+					isBackupOwner = true
+					break
+				}
+			}
+			if !isBackupOwner {
+				continue
+			}
+
 			// If readRepair is enabled, this function is called by every GET request.
 			cmd := protocol.NewPutEntry(dm.name, winner.entry.Key(), winner.entry.Encode()).Command(dm.s.ctx)
 			rc := dm.s.client.Get(value.host.String())
